@@ -653,6 +653,10 @@ pub fn gen_control(r: &mut Rng, substvars: bool) -> String {
     t
 }
 
+thread_local! {
+    static PER_PARA: std::cell::Cell<u64> = const { std::cell::Cell::new(0) };
+}
+
 fn control_lane(ctx: &mut Ctx, idx: u64) {
     use debian_control::lossless::Control;
     let mut r = ctx.rng();
@@ -664,17 +668,50 @@ fn control_lane(ctx: &mut Ctx, idx: u64) {
     s.formatter = 3;
     let level = "control";
     let shape = if substvars { "control+substvars" } else { "control" };
+    // one case in four reformats paragraph by paragraph through the typed handles (Source::wrap_and_sort,
+    // Binary::wrap_and_sort): the same per-paragraph result is demanded, in the order the handles were taken
+    let per_para = idx % 4 == 1;
+    let shape = if per_para { if substvars { "source+binary+substvars" } else { "source+binary" } } else { shape };
     let res = guard(text.len() * 8 + 4096, || {
         let mut c = Control::from_str(&text).map_err(|e| e.to_string())?;
+        if per_para {
+            PER_PARA.with(|c| c.set(c.get() + 1));
+            let mut src = c.source();
+            let mut bins: Vec<_> = c.binaries().collect();
+            type Snap = Vec<(String, Vec<(String, String)>)>;
+            let paras = |src: &Option<debian_control::lossless::Source>, bins: &Vec<debian_control::lossless::Binary>| -> Snap {
+                src.iter().map(|x| x.as_deb822()).chain(bins.iter().map(|b| b.as_deb822())).map(|p| (p.to_string(), p.items().collect())).collect()
+            };
+            let join = |ps: &Snap| ps.iter().map(|p| p.0.clone()).collect::<Vec<_>>().join("\n");
+            let before = paras(&src, &bins);
+            let in_model: Vec<Vec<(String, String)>> = before.iter().map(|p| p.1.clone()).collect();
+            let in_text = join(&before);
+            let apply = |src: &mut Option<debian_control::lossless::Source>, bins: &mut Vec<debian_control::lossless::Binary>| {
+                if let Some(x) = src.as_mut() {
+                    x.wrap_and_sort(s.indent, s.iel, s.mll);
+                }
+                for b in bins.iter_mut() {
+                    b.wrap_and_sort(s.indent, s.iel, s.mll);
+                }
+            };
+            apply(&mut src, &mut bins);
+            let after = paras(&src, &bins);
+            let t1 = join(&after);
+            let live: Vec<Vec<(String, String)>> = after.iter().map(|p| p.1.clone()).collect();
+            apply(&mut src, &mut bins);
+            let t2 = join(&paras(&src, &bins));
+            return Ok::<_, String>((in_model, t1, live, t2, in_text));
+        }
         let in_model: Vec<Vec<(String, String)>> = c.as_deb822().paragraphs().map(|p| p.items().collect()).collect();
         c.wrap_and_sort(s.indent, s.iel, s.mll);
         let t1 = c.as_deb822().to_string();
         let live: Vec<Vec<(String, String)>> = c.as_deb822().paragraphs().map(|p| p.items().collect()).collect();
         c.wrap_and_sort(s.indent, s.iel, s.mll);
         let t2 = c.as_deb822().to_string();
-        Ok::<_, String>((in_model, t1, live, t2))
+        Ok::<_, String>((in_model, t1, live, t2, text.clone()))
     });
-    let (in_model, t1, live, t2) = match res {
+    ctx.add("control:typed-paragraph-handles", PER_PARA.with(|c| c.replace(0)));
+    let (in_model, t1, live, t2, text) = match res {
         Err(f) => {
             ctx.violation(&format!("{}|control|{}", f.class(), shape), json!({"input": clip(&text), "settings": s.json(), "failure": f.json()}));
             return;
@@ -709,7 +746,9 @@ fn control_lane(ctx: &mut Ctx, idx: u64) {
         }
     };
     let mut want_order: Vec<(u8, String)> = in_model.iter().map(ident).collect();
-    want_order.sort();
+    if !per_para {
+        want_order.sort();
+    }
     let got_order: Vec<(u8, String)> = re.iter().map(ident).collect();
     if want_order != got_order {
         cfail(ctx, "paragraph-order", json!({"expected": want_order, "got": got_order}));
@@ -717,7 +756,9 @@ fn control_lane(ctx: &mut Ctx, idx: u64) {
     }
     // field-wise expectations (paragraphs matched through a stable sort of the input)
     let mut sorted_in = in_model.clone();
-    sorted_in.sort_by_key(ident);
+    if !per_para {
+        sorted_in.sort_by_key(ident);
+    }
     for (pin, pout) in sorted_in.iter().zip(re.iter()) {
         let kin: Vec<&String> = pin.iter().map(|f| &f.0).collect();
         let kout: Vec<&String> = pout.iter().map(|f| &f.0).collect();
